@@ -183,6 +183,43 @@ class ExpandingDriver:
             self.feats.add("probe")
             ctx.op("probe", repr(k), bool(r))
             return
+        elif kind == "refused_alt":
+            # a forced add through the precomputed entry point with a list that is one hash too short: it raises (which exception is
+            # not specified) - the caller carries on. Whatever the call did before failing, it was no insertion: per-filter counts,
+            # growth and rotation go on as if it had not happened (whether the outer add counter moved is left open)
+            k = self.key(self.used)
+            self.used += 1
+            full = list(self._hashes(k))
+            if self._nh is None or self._nh < 1:
+                return
+            short = full[: self._nh - 1]
+            before_added = o.elements_added
+            try:
+                o.add_alt(short, True)
+                raised = False
+            except Exception:  # noqa
+                raised = True
+            if not raised:
+                # accepted: then it was a forced insertion like any other
+                if self.model[-1] >= self.est:
+                    self._model_new_filter()
+                self.model[-1] += 1
+                self.effective += 1
+                self.add_calls += 1
+                self.feats.add("short_hash_list_accepted")
+            else:
+                if o.elements_added == before_added + 1:
+                    self.add_calls += 1
+                parsed = parse_stream(bytes(o))
+                if parsed is not None and parsed[0] and parsed[0][-1] == 0 and self.model[-1] >= self.est:
+                    # the newest filter was full: the call grew / rotated before it failed - exactly what an explicit push() does
+                    # (malformed input is outside the property; its side effect is modelled as that push, nothing more)
+                    self._model_new_filter()
+                    self.pushes += 1
+                    self.window.clear()
+                    self.feats.add("refused_add_alt_grew_first")
+                self.feats.add("refused_add_alt_short_list")
+            ctx.op("refused_alt", repr(k))
         elif kind == "bulk":
             n = 1 + op[1] % (self.est + 6)
             for _ in range(n):
@@ -360,7 +397,7 @@ def case_strategy(tier, rot, max_ops=80):
     i = st.integers(0, 40)
     base = [st.tuples(st.just("new")), st.tuples(st.just("new")), st.tuples(st.just("new")),
             st.tuples(st.just("dup"), i, st.booleans()), st.tuples(st.just("forced"), i, st.booleans()),
-            st.tuples(st.just("probe"), i), st.tuples(st.just("bulk"), st.integers(0, 400)),
+            st.tuples(st.just("probe"), i), st.tuples(st.just("bulk"), st.integers(0, 400)), st.tuples(st.just("refused_alt")),
             st.tuples(st.just("reload"), st.integers(0, 3), st.sampled_from([0, 0, 0, -1, -2, 1] if rot else [0]))]
     rare = [st.tuples(st.just("push"))] + ([st.tuples(st.just("pop"))] if rot else [])
 
